@@ -71,6 +71,8 @@ def run(seed, tier):
         if kind == 'family' and i % 10 == 4:
             cfg['family'] = 'wide_normal_in_narrow_box'          # rarely taken code paths of the rejection loops
         cfg['nchains'] = rng.choice([1, 2, 3])
+        if i % 5 == 1:
+            cfg['seed'] = rng.choice([0, 0, 2 ** 64 + 12345])       # legal seeds at the ends of the range (0 is falsy in Python)
         cfgs.append((cfg, rng.choice([[5], [2, 4], [7]])))
     jobs = []
     for ci, (cfg, seg) in enumerate(cfgs):
